@@ -2,6 +2,8 @@ import BSModel.Proofs.Render
 import BSModel.Proofs.Reparse
 import BSModel.Proofs.ReparseIdem
 import BSModel.Gen.Render
+import BSModel.Props.C09
+import BSModel.Proofs.RenderEnt
 /-! # C05 — serialising and re-parsing gives the same tree back
 
 Property theorems only. `decodeImpl`/`eventStream`/`piece`/`formatTag`/`outputReady`/`substitute` mirror
@@ -325,5 +327,151 @@ theorem second_roundtrip_fixpoint (p : PCfg) (f : Fmt) (hc : contOK p = true) (h
   (second_roundtrip_fixpoint_iff p f ds h h2).mpr (normalise_idem p f hc h10 ds hs ha)
 
 example : Representable livePCfg minimalHtml (normaliseL livePCfg minimalHtml demo2) := by decide
+
+/-! ## 7. which formatter `decode` uses; the XML flavour -/
+
+/-- the live environment of `formatter_for_name`: both registries, the constructor defaults for a callable, and the
+    registered substitution functions (`substitute_xml` from this model, `substitute_html`/`substitute_html5` from
+    C09's model over the generated entity tables) -/
+def liveEnv : FmtEnv :=
+  ⟨registryOf, ctorDefaults,
+   fun k => if k = 0 then none else if k = 1 then some substXml
+            else if k = 2 then some (BS.Entities.substHtml BS.Gen.htmlTable)
+            else some (BS.Entities.substHtml5 BS.Gen.htmlTable)⟩
+
+/-- `_is_xml` walks up the parent chain to the first `known_xml` that is not `None`; a root without one answers with
+    its `is_xml` attribute (default False) -/
+theorem isXml_eq_spec (r : Bool) (chain : List (Option Bool)) : isXmlImpl r chain = isXmlSpec r chain := by
+  induction chain with
+  | nil => rfl
+  | cons a as ih =>
+    cases a with
+    | none => simpa [isXmlImpl, isXmlSpec, List.find?] using ih
+    | some b => simp [isXmlImpl, isXmlSpec, List.find?]
+
+example : isXmlImpl false [none, none, some true, some false] = true ∧ isXmlImpl true [none, none] = true ∧
+    isXmlImpl true [some false, some true] = false := by decide
+
+/-- Whole-registry facts, both flavours (`x` = `_is_xml`): 'minimal' is `substitute_xml`, 'html' is
+    `substitute_html`, both write `<x/>` and keep `""` attribute values; HTML formatters treat script/style as
+    cdata-containing, XML formatters no tag; 'html5' and 'html5-4.12' exist for HTML only. -/
+theorem registry_lookup_live :
+    (∀ x, lookupReg (registryOf x) (some (ofS "minimal")) = some ⟨1, [47], if x then [] else htmlCdataTags, false⟩) ∧
+    (∀ x, lookupReg (registryOf x) (some (ofS "html")) = some ⟨2, [47], if x then [] else htmlCdataTags, false⟩) ∧
+    (∀ x, lookupReg (registryOf x) none = some ⟨0, [47], if x then [] else htmlCdataTags, false⟩) ∧
+    lookupReg (registryOf false) (some (ofS "html5")) = some ⟨3, [], htmlCdataTags, true⟩ ∧
+    lookupReg (registryOf true) (some (ofS "html5")) = none ∧
+    (∀ x, (ctorDefaults x).voidPrefix = [47] ∧ (ctorDefaults x).emptyBool = false ∧
+          (ctorDefaults x).cdataTags = if x then [] else htmlCdataTags) := by decide
+
+/-- A callable becomes the substitution function of a fresh formatter of the element's flavour, with that flavour's
+    defaults. -/
+theorem formatter_for_callable (x : Bool) (g : PStr → PStr) :
+    ∃ f, formatterForName liveEnv x (.fn g) = .ok f ∧ f.voidPrefix = [47] ∧ f.emptyBool = false ∧
+      f.cdataTags = (if x then [] else htmlCdataTags) ∧ ∃ g', f.subst = some g' ∧ ∀ s, g' s = g s := by
+  cases x <;> exact ⟨_, rfl, rfl, rfl, rfl, g, rfl, fun _ => rfl⟩
+
+/-- An unknown registry key — 'html5' on an XML-flavoured element, for one — is a `KeyError`, not a silent default. -/
+theorem decode_keyerror (ci : SCls → ClsInfo) (r : Bool) (chain : List (Option Bool)) (k : Option PStr) (n : Node)
+    (h : lookupReg (liveEnv.registry (isXmlImpl r chain)) k = none) :
+    decodeTop ci liveEnv r chain (.name k) n = none := by
+  simp [decodeTop, formatterForName, h]
+
+example : decodeTop liveClsInfo liveEnv false [some true] (.name (some (ofS "html5"))) demo = none := by decide
+example : decodeTop liveClsInfo liveEnv false [none, some true] (.name (some (ofS "minimal")))
+    (.tag (tg "script" [] true) []) = some (ofS "<script/>") := by decide
+
+/-- `decode(formatter=…)` end to end: the resolved formatter, then the structural rendering. -/
+theorem decodeTop_eq (ci : SCls → ClsInfo) (e : FmtEnv) (r : Bool) (chain : List (Option Bool)) (a : FmtArg) (n : Node) :
+    decodeTop ci e r chain a n =
+      match formatterForName e (isXmlSpec r chain) a with
+      | .ok f => some (renderSpec ci f none n)
+      | .keyError => none := by
+  simp only [decodeTop, isXml_eq_spec]
+  cases formatterForName e (isXmlSpec r chain) a <;> simp [decode_eq_render]
+
+/-- **XML flavour**: a formatter without cdata-containing tags — every formatter of the XML registry and every
+    callable on an XML-flavoured element (`registry_lookup_live`, `registry_cdata_tags`) — substitutes every string of
+    a text class wherever it stands, `script`/`style` included. -/
+theorem xml_substitutes_everywhere (ci : SCls → ClsInfo) (f : Fmt) (g : PStr → PStr) (hf : f.subst = some g)
+    (hc : f.cdataTags = []) (pn : Option PStr) (c : SCls) (s : PStr) (hp : (ci c).preformatted = false) :
+    outputReady ci f pn c s = (ci c).pre ++ g s ++ (ci c).suf := by
+  cases pn <;> simp [outputReady, substitute, hf, hc, hp]
+
+example : decodeTop liveClsInfo liveEnv false [some true] (.name (some (ofS "minimal")))
+    (.tag (tg "script") [.str .navigable (ofS "a<b")]) = some (ofS "<script>a&lt;b</script>") := by decide
+
+/-! ## 8. the generated class table is the markup the re-parse model presupposes (whole table) -/
+
+/-- For all 13 string classes: `PREFIX`, `SUFFIX` and the kind of `output_ready` of the live class are those `strKind`
+    / `emitStr` are written for — a changed prefix or suffix breaks this obligation by name. -/
+theorem class_table_live : ∀ c, liveClsInfo c = assumedMarkup c := by
+  intro c; cases c <;> decide
+
+/-! ## 9. the round trip through C09's readers: 'minimal' and 'html' at full strength -/
+
+/-- this model's `substitute_xml` and `quoted_attribute_value` are C09's (over the live `CHARACTER_TO_XML_ENTITY`) -/
+theorem subst_quote_are_c09 :
+    (∀ s, substXml s = BS.Entities.substXml BS.Gen.xmlTable s) ∧ (∀ v, quoteAttr v = BS.Entities.quoteAttr v) :=
+  ⟨substXml_eq_c09, quoteAttr_eq_c09⟩
+
+/-- C09's readers: `readText` = html.parser (convert_charrefs=False) + bs4's handle_entityref/handle_charref on tag-free
+    character data; `readAttr` = quote stripping + `html.unescape` — over the generated entity tables -/
+def c09Reader (late : Bool) : Reader :=
+  ⟨BS.Reader.readText BS.Gen.htmlTable late 0, BS.Reader.readAttr BS.Gen.htmlTable⟩
+
+/-- `substitute_xml` is undone by the readers, for every string (C09, over the live tables) -/
+theorem minimal_reader_laws (late : Bool) (vp : PStr) (cd : List PStr) (eb : Bool) :
+    ReaderLaws (c09Reader late) ⟨some substXml, vp, cd, eb⟩ :=
+  ⟨substXml, rfl,
+   fun s => by
+    rw [substXml_eq_c09]
+    exact BS.Props.C09.xml_text_roundtrip _ _ BS.Props.C09.xmlOK_live late s,
+   fun v => by
+    rw [substXml_eq_c09, quoteAttr_eq_c09]
+    exact BS.Props.C09.xml_attr_roundtrip _ _ BS.Props.C09.xmlOK_live BS.Props.C09.tblOK_live v⟩
+
+/-- `substitute_html` is undone by the readers, for every string (C09, over the live tables) -/
+theorem html_reader_laws (late : Bool) (vp : PStr) (cd : List PStr) (eb : Bool) :
+    ReaderLaws (c09Reader late) ⟨some (BS.Entities.substHtml BS.Gen.htmlTable), vp, cd, eb⟩ :=
+  ⟨_, rfl,
+   fun s => BS.Props.C09.html_text_roundtrip _ BS.Props.C09.tblOK_live late s,
+   fun v => by
+    rw [quoteAttr_eq_c09]
+    exact BS.Props.C09.html_attr_roundtrip _ BS.Props.C09.tblOK_live v⟩
+
+/-- Round trip with the written text read back character by character: for every reader and formatter satisfying the
+    reader laws, every configuration and every representable forest, the events the readers produce from what
+    `output_ready` / `_format_tag` wrote are `emitR`, and the machine builds the normal form. -/
+theorem reparse_roundtrip_rd (p : PCfg) (rd : Reader) (f : Fmt) (hl : ReaderLaws rd f) (ds : List Node)
+    (h : Representable p f ds) :
+    build p (emitRdL p rd f none false ds) = normaliseL p f ds := by
+  rw [emitRdL_eq p rd f hl ds none false rfl h]
+  exact reparse_roundtrip p f ds h
+
+/-- **'minimal' and 'html', HTML and XML flavour, unconditionally**: whichever of the four registered formatters
+    `formatter_for_name` resolves to, the reader laws hold (C09's theorems over the live entity tables), hence for every
+    representable forest the re-parse of the rendered text — substituted, quoted, read back through the models of the
+    tokenizer's character-data and attribute-value handling — builds the normal form. -/
+theorem reparse_roundtrip_registry (x late : Bool) (k : PStr) (hk : k = ofS "minimal" ∨ k = ofS "html") :
+    ∃ f, formatterForName liveEnv x (.name (some k)) = .ok f ∧ ReaderLaws (c09Reader late) f ∧
+      ∀ ds, Representable livePCfg f ds →
+        build livePCfg (emitRdL livePCfg (c09Reader late) f none false ds) = normaliseL livePCfg f ds := by
+  rcases hk with hk | hk <;> subst hk
+  · refine ⟨⟨some substXml, [47], if x then [] else htmlCdataTags, false⟩, ?_, minimal_reader_laws late _ _ _, ?_⟩
+    · have := registry_lookup_live.1 x
+      simp only [formatterForName, liveEnv] at this ⊢
+      rw [this]; rfl
+    · intro ds h; exact reparse_roundtrip_rd _ _ _ (minimal_reader_laws late _ _ _) ds h
+  · refine ⟨⟨some (BS.Entities.substHtml BS.Gen.htmlTable), [47], if x then [] else htmlCdataTags, false⟩, ?_,
+      html_reader_laws late _ _ _, ?_⟩
+    · have := registry_lookup_live.2.1 x
+      simp only [formatterForName, liveEnv] at this ⊢
+      rw [this]; rfl
+    · intro ds h; exact reparse_roundtrip_rd _ _ _ (html_reader_laws late _ _ _) ds h
+
+/-- the written form really is read back: `a<b` under `<p>`, `1<2` raw under `<script>`, a value with both quotes -/
+example : emitRdL livePCfg (c09Reader false) minimalHtml none false [demo] = emitRL minimalHtml [demo] :=
+  emitRdL_eq _ _ _ (minimal_reader_laws false _ _ _) _ none false rfl (by decide)
 
 end BS.Props.C05
